@@ -842,7 +842,7 @@ func (ev *Env) evalIndex(x *EIndex) Value {
 	switch b := base.(type) {
 	case SliceV:
 		i := ev.idx(iv)
-		pl := fc.elemPlace(b.Base, fc.iadd(b.Off, i), b.Elem)
+		pl := fc.elemPlace(b.Base, fc.elemIdx(b.Off, i), b.Elem)
 		return fc.loadPlace(ev.cur(), pl)
 	case Scalar:
 		if strings.HasPrefix(b.Sort, "(Array ") {
